@@ -44,6 +44,7 @@ def _raw_ensures(res):
         # n_cells of a leaf = entry cluster_to_row[leaf] of the stored 'n_cells'
         f"all({cs}[leaf]['n_cells'] == {F}['n_cells'][{ROW}[leaf]] for leaf in {ROW})",
         # 'sum' is always there on a normal return
+        f"'sum' in {F}",
         f"all('sum' in {cs}[leaf] for leaf in {ROW})",
     ]
     for k in STAT_KEYS:
@@ -227,5 +228,168 @@ contract(
     loops={
         0: [f"n_cells == c18_nsum({D_}, {L_}, _i)", f"len(sum_arr) == len({D_}[{L_}[0]]['sum'])",
             f"all(sum_arr[g] == c18_gsum({D_}, {L_}, _i, g) for g in range(len(sum_arr)))"],
+    },
+)
+
+
+# ---------------------------------------------------------------------------------------------
+# read_precomputed_stats: 'level/node' -> aggregate of the leaves of that node, by NAME
+# ---------------------------------------------------------------------------------------------
+from pyvc.ext.taxonomy import register_rec_keys, register_rec_pop   # noqa: E402
+from pyvc.ext.marker_cache import define_predicate                  # noqa: E402
+
+register_rec_keys('C18Node')
+register_rec_pop('C18Node')
+
+AL = "taxonomy_tree.as_leaves"
+
+# every stored per-gene matrix has one column per gene name
+VALID_FILE2 = VALID_FILE + [f"'{k}' not in {F} or {F}['{k}'].shape[1] == len({F}['col_names'])" for k in STAT_KEYS]
+
+# the taxonomy handed in is the one the statistics were computed for (C18: "identify clusters
+# consistently by name"): every leaf listed under a node has a row in the file; every node has a
+# leaf (valid taxonomy); the keys 'level/node' are unambiguous for this taxonomy
+TREE_REQ = [
+    f"all(len({AL}[l][n]) >= 1 for l in {AL} for n in {AL}[l])",
+    f"all({AL}[l][n][i] in {ROW} for l in {AL} for n in {AL}[l] for i in range(len({AL}[l][n])))",
+    f"all(implies(f'{{l1}}/{{n1}}' == f'{{l2}}/{{n2}}', l1 == l2 and n1 == n2) "
+    f"for l1 in {AL} for n1 in {AL}[l1] for l2 in {AL} for n2 in {AL}[l2])",
+]
+
+
+def _node_ok(st, pop, fl=F):
+    """`st` = statistics stored for a node whose leaves are `pop`: mean over the file's rows"""
+    return (f"len({st}['mean']) == {fl}['sum'].shape[1] and "
+            f"all({st}['mean'][g] == c18_fgsum({fl}, {pop}, len({pop}), g) / max(1, c18_fnsum({fl}, {pop}, len({pop}))) "
+            f"for g in range({fl}['sum'].shape[1]))")
+
+
+def _node_n_ok(st, pop, fl=F):
+    return f"'n_cells' in {st} and c18_int({st}['n_cells']) == c18_fnsum({fl}, {pop}, len({pop}))"
+
+
+def _one_leaf_ok(st, pop, fl=F):
+    """a node with a single leaf (in particular every leaf itself): that leaf's row sum / max(1, n_cells)"""
+    return (f"len({pop}) != 1 or all({st}['mean'][g] == {fl}['sum'][{fl}['cluster_to_row'][{pop}[0]], g] / "
+            f"max(1, {fl}['n_cells'][{fl}['cluster_to_row'][{pop}[0]]]) for g in range({fl}['sum'].shape[1]))")
+
+
+# c18_node_ok(st, Ff, pop, fms): `st` is what read_precomputed_stats stores for a node whose leaves
+# are `pop` (definition hiding: the invariants carry the predicate, the post-conditions spell it out)
+define_predicate(
+    'c18_node_ok', ['st', 'Ff', 'pop', 'fms'], ['C18Node', 'C18File', 'List[Name]', 'Bool'],
+    "(" + _node_ok('st', 'pop', 'Ff') + ") and (" + _one_leaf_ok('st', 'pop', 'Ff') + ") and (not fms or ("
+    + _node_n_ok('st', 'pop', 'Ff') + "))")
+
+
+def _stats_ensures(res):
+    cs = f"{res}['cluster_stats']"
+    key = "f'{l}/{n}'"
+    pop = f"{AL}[l][n]"
+    return [
+        f"{res}['gene_names'] == {F}['col_names']",
+        f"all({key} in {cs} for l in {AL} for n in {AL}[l])",
+        f"all({_node_ok(f'{cs}[{key}]', pop)} for l in {AL} for n in {AL}[l])",
+        f"all({_one_leaf_ok(f'{cs}[{key}]', pop)} for l in {AL} for n in {AL}[l])",
+        f"not for_marker_selection or all({_node_n_ok(f'{cs}[{key}]', pop)} for l in {AL} for n in {AL}[l])",
+    ]
+
+
+def gen_valid_tree(rng, size):
+    """a valid taxonomy (every parent has a child; single-child nodes included), level names not ordered"""
+    n_levels = rng.randint(1, 3)
+    levels = [f"L{i}" for i in range(n_levels)]
+    rng.shuffle(levels)
+    n_leaves = rng.randint(1, size + 2)
+    counts = [n_leaves]
+    for _ in range(n_levels - 1):
+        counts.append(rng.randint(1, counts[-1]))
+    counts.reverse()
+    names = [[f"{'xyz'[li]}{j}" for j in range(c)] for li, c in enumerate(counts)]
+    for nm in names:
+        rng.shuffle(nm)
+    tree = {'hierarchy': list(levels)}
+    for li in range(n_levels - 1):
+        par, chd = names[li], list(names[li + 1])
+        rng.shuffle(chd)
+        table = {p: [chd[i]] for i, p in enumerate(par)}
+        for c in chd[len(par):]:
+            table[rng.choice(par)].append(c)
+        tree[levels[li]] = table
+    tree[levels[-1]] = {c: [] for c in names[-1]}
+    return tree
+
+
+def _mk_tree(tree):
+    import warnings
+    from cell_type_mapper.taxonomy.taxonomy_tree import TaxonomyTree
+
+    class _Tree(TaxonomyTree):
+        def __repr__(self):
+            return f"TaxonomyTree({self._data!r})"
+    with warnings.catch_warnings():
+        warnings.simplefilter('ignore')
+        return _Tree(data=tree)
+
+
+def _gen_read_stats(rng, size):
+    tree = gen_valid_tree(rng, size)
+    leaves = list(tree[tree['hierarchy'][-1]])
+    rng.shuffle(leaves)
+    genes = [f"g{i}" for i in range(rng.randint(1, size + 1))]
+    rng.shuffle(genes)
+    fms = rng.random() < 0.5
+    keys = list(NAMES6) if fms or rng.random() < 0.5 else ['n_cells', 'sum'] + rng.sample(STAT_KEYS[1:], rng.randint(0, 3))
+    return dict(precomputed_stats_path=write_stats_file(rng, leaves, genes, keys), taxonomy_tree=_mk_tree(tree),
+                for_marker_selection=fms)
+
+
+RAWCS = "raw_results['cluster_stats']"
+CS_ = "results['cluster_stats']"
+
+
+def _stored_ok(lvl, seen):
+    """every node `n` in `seen` of level `lvl` has its entry, and the entry is right"""
+    key = "f'{" + lvl + "}/{n}'"
+    return (f"all({key} in {CS_} and c18_node_ok({CS_}[{key}], {F}, as_leaves[{lvl}][n], for_marker_selection) "
+            f"for n in {seen})")
+
+
+GENES_KEPT = f"{CS_[:-len(chr(91) + chr(39) + 'cluster_stats' + chr(39) + chr(93))]}['gene_names'] == {F}['col_names']"
+LEVELS_DONE = ("all(f'{l}/{n}' in " + CS_ + " and c18_node_ok(" + CS_ + "[f'{l}/{n}'], " + F +
+               ", as_leaves[l][n], for_marker_selection) for l in _seen0 for n in as_leaves[l])")
+
+contract(
+    SU + 'read_precomputed_stats',
+    properties=['C18'],
+    mode='slice', unexpected_exceptions='allowed',
+    tracked=['precomputed_stats_path', 'taxonomy_tree', 'for_marker_selection', 'raw_results', 'results',
+             'as_leaves', 'level', 'node', 'leaf_population', 'this', 'key_list', 'key'],
+    params=dict(precomputed_stats_path='Name', taxonomy_tree='C18Tree', for_marker_selection='Bool'),
+    locals=dict(results='C18Stats', this='C18Node', raw_results='C18RawStats',
+                as_leaves='Dict[Name,Dict[Name,List[Name]]]', leaf_population='List[Name]'),
+    returns='C18Stats',
+    native=dict(gen=_gen_read_stats),
+    assumptions=['A-TREE: TaxonomyTree.as_leaves / all_leaves / leaf_level are read-only properties (a record of '
+                 'their values); as_leaves is convert_tree_to_leaves(data) (C10, c_taxonomy_utils.py)'],
+    requires=VALID_FILE2 + TREE_REQ,
+    ensures=_stats_ensures('result'),
+    inline_asserts={
+        'this = aggregate_stats(': [
+            # the sums over the dict read from the file are the sums over the file's rows (lemma AGREE)
+            f"c18_lemma_agree({RAWCS}, {F}, leaf_population, len(leaf_population), {F}['sum'].shape[1])",
+            f"c18_node_ok(this, {F}, leaf_population, True)",
+            "ghost M0 = this['mean']",
+            "ghost N0 = this['n_cells']",
+        ],
+        # after the entries that are not wanted are dropped
+        "results['cluster_stats'][f'{level}/{node}'] = this": [],
+    },
+    loops={
+        0: [f"mc_same(as_leaves, {AL})", GENES_KEPT, LEVELS_DONE],
+        1: [GENES_KEPT, LEVELS_DONE, _stored_ok('level', '_seen')],
+        2: ["mc_same(this['mean'], M0)",
+            "'n_cells' in this and mc_same(this['n_cells'], N0)",
+            "all(key_list[i] in this for i in range(_i, len(key_list)))"],
     },
 )
